@@ -45,6 +45,8 @@ pub enum Lie {
     StallThenDisconnect,
     /// fails the first request for the target (storage error), is honest afterwards and keeps re-dialling
     FlakyOnce,
+    /// holds the answer for the target back until the harness releases it, then answers honestly
+    HoldUntilReleased,
 }
 
 struct StoreInner {
@@ -58,6 +60,7 @@ struct StoreInner {
     /// every get_block call that reached this store
     reads: Mutex<Vec<u64>>,
     lied: Mutex<u64>,
+    released: sync::watch::Sender<bool>,
 }
 
 #[derive(Clone)]
@@ -83,6 +86,7 @@ impl NetStore {
             bad_block,
             reads: Mutex::new(vec![]),
             lied: Mutex::new(0),
+            released: sync::watch::channel(false).0,
         }))
     }
     fn reads(&self) -> Vec<u64> {
@@ -90,6 +94,17 @@ impl NetStore {
     }
     fn stored(&self) -> BTreeMap<u64, validator::Block> {
         self.0.blocks.lock().unwrap().clone()
+    }
+    /// The node prunes every block below `first` (and tells its EngineManager through the persisted watch).
+    fn prune(&self, first: u64) {
+        let mut b = self.0.blocks.lock().unwrap();
+        b.retain(|n, _| *n >= first);
+        let last = b.values().next_back().map(Last::from);
+        drop(b);
+        self.0.persisted.send_replace(BlockStoreState { first: BlockNumber(first), last });
+    }
+    fn release(&self) {
+        self.0.released.send_replace(true);
     }
 }
 
@@ -139,6 +154,11 @@ impl EngineInterface for NetStore {
                     }
                     b => Ok(b),
                 }
+            }
+            Lie::HoldUntilReleased => {
+                let b = honest();
+                sync::wait_for(ctx, &mut self.0.released.subscribe(), |r| *r).await?;
+                b
             }
             Lie::Stall | Lie::StallThenDisconnect => {
                 ctx.canceled().await;
@@ -242,6 +262,8 @@ pub fn fetch_scenarios() -> Vec<FetchScenario> {
         FetchScenario { name: "flaky_peer_reconnects", target: 2, first: vec![PeerSpec { lo: 0, hi: 4, lie: Lie::FlakyOnce }], wait_read: None, second: vec![] },
         // two partial peers: one has only 0..1, the other has pruned everything below 3; nobody has 2
         // until the late peer arrives. Requests must reach a peer only for numbers it announced.
+        // handled by run_prune (the peer's announced range shrinks while it is connected)
+        FetchScenario { name: PRUNE_SCENARIO, target: 0, first: vec![], wait_read: None, second: vec![] },
         FetchScenario { name: "partial_and_pruned_peers", target: 99, first: vec![PeerSpec { lo: 0, hi: 1, lie: Lie::Honest }, PeerSpec { lo: 3, hi: 4, lie: Lie::Honest }], wait_read: Some(1), second: vec![PeerSpec { lo: 2, hi: 4, lie: Lie::Honest }] },
     ]
 }
@@ -253,15 +275,23 @@ pub struct NetOutcome {
     pub machinery: Vec<String>,
     pub lies_told: u64,
     pub blocks_fetched: u64,
+    pub prune_attempts_clean: u64,
 }
 
 /// Runs the fetch scenarios whose name passes `filter`.
 pub fn run_fetch(seed: u64, filter: &dyn Fn(&FetchScenario) -> bool) -> NetOutcome {
-    let mut out = NetOutcome { cases: 0, viol: vec![], machinery: vec![], lies_told: 0, blocks_fetched: 0 };
+    let mut out = NetOutcome { cases: 0, viol: vec![], machinery: vec![], lies_told: 0, blocks_fetched: 0, prune_attempts_clean: 0 };
     let chn = c08::chain(seed, 5);
     let canon: Vec<validator::Block> = chn.blocks.iter().cloned().map(validator::Block::FinalV2).collect();
     let rt = tokio::runtime::Builder::new_multi_thread().worker_threads(4).enable_all().build().unwrap();
     for sc in fetch_scenarios().into_iter().filter(|s| filter(s)) {
+        if sc.name == PRUNE_SCENARIO {
+            run_prune(seed, &chn, &canon, &rt, &mut out);
+            if !out.viol.is_empty() {
+                break;
+            }
+            continue;
+        }
         out.cases += 1;
         let res: Result<(Vec<(String, String)>, u64, u64), String> = rt.block_on(one_fetch(seed, &chn, &canon, &sc));
         match res {
@@ -426,7 +456,7 @@ async fn one_fetch(seed: u64, chn: &c08::Chain, canon: &[validator::Block], sc: 
                         Lie::SwappedPayload => "answered with a foreign payload under the block's certificate",
                         Lie::Stall => "never answered",
                         Lie::StallThenDisconnect => "vanished mid-call",
-                        Lie::Honest => "(all peers honest)",
+                        Lie::Honest | Lie::HoldUntilReleased => "(all peers honest)",
                     },
                     n_store_ref.stored().keys().collect::<Vec<_>>(),
                     net_ref.fetch_requested(),
@@ -601,6 +631,153 @@ async fn one_dial(seed: u64, out: &mut DialOutcome) -> Result<(), String> {
 }
 
 // ---------------------------------------------------------------------------------------------
+// A peer prunes while it is connected (push_block_store_state handler of gossip/runner.rs): its newer
+// announcement no longer covers blocks it announced before; requests for those must not go to it.
+
+pub const PRUNE_SCENARIO: &str = "peer_prunes_while_connected";
+
+/// One attempt with `wait_ms` between "the peer pruned" and "the node needs the pruned block".
+/// Ok(Some(description)) = the forbidden outcome was observed in this attempt.
+async fn one_prune(seed: u64, chn: &c08::Chain, canon: &[validator::Block], wait_ms: u64) -> Result<(Vec<(String, String)>, Option<String>), String> {
+    let rng = &mut util::rng(seed, 0x9ea1 ^ wait_ms);
+    let root = ctx::test_root(&ctx::RealClock);
+    let ctx = &root;
+    let genesis = &chn.w.c.genesis;
+    let epoch = chn.w.c.epoch;
+    let n_store = NetStore::new(genesis, &[], Lie::Honest, u64::MAX, None);
+    let (n_mgr, n_runner) = EngineManager::new(ctx, Box::new(n_store.clone()), time::Duration::seconds(1)).await.map_err(|e| format!("{e:?}"))?;
+    let mut cfg_n = make_cfg(rng, None);
+    // one block at a time: block n+1 is requested only after block n has been stored
+    cfg_n.max_block_queue_size = 1;
+    cfg_n.rpc.get_block_timeout = Some(time::Duration::seconds(120));
+    let n_key = cfg_n.gossip.key.public();
+    let net = nv::VGossip::new(cfg_n, n_mgr.clone(), Some(epoch));
+    let listener = TcpListener::bind("127.0.0.1:0").await.map_err(|e| e.to_string())?;
+    let addr = listener.local_addr().unwrap();
+    let mk_peer = |rng: &mut rand::rngs::StdRng, store: &NetStore| {
+        let mut cfg = make_cfg(rng, None);
+        cfg.gossip.static_outbound.insert(n_key.clone(), zksync_concurrency::net::Host(addr.to_string()));
+        (cfg, store.clone())
+    };
+    let a_store = NetStore::new(genesis, canon, Lie::HoldUntilReleased, 0, None);
+    let b_store = NetStore::new(genesis, canon, Lie::Honest, u64::MAX, None);
+    let (a_cfg, _) = mk_peer(rng, &a_store);
+    let (b_cfg, _) = mk_peer(rng, &b_store);
+    let a_key = a_cfg.gossip.key.public();
+    let (a_mgr, a_runner) = EngineManager::new(ctx, Box::new(a_store.clone()), time::Duration::seconds(1)).await.map_err(|e| format!("{e:?}"))?;
+    let (b_mgr, b_runner) = EngineManager::new(ctx, Box::new(b_store.clone()), time::Duration::seconds(1)).await.map_err(|e| format!("{e:?}"))?;
+    let a_net = nv::VGossip::new(a_cfg, a_mgr, Some(epoch));
+    let b_net = nv::VGossip::new(b_cfg, b_mgr, Some(epoch));
+    let mut viol: Vec<(String, String)> = vec![];
+    let mut forbidden: Option<String> = None;
+    let (viol_ref, forbidden_ref) = (&mut viol, &mut forbidden);
+    let (net_ref, n_store_ref, a_store_ref, n_key_ref, a_key_ref) = (&net, &n_store, &a_store, &n_key, &a_key);
+    let r: Result<(), ctx::Error> = scope::run!(ctx, |ctx, s| async move {
+        for r in [n_runner, a_runner, b_runner] {
+            s.spawn_bg(async move {
+                let _ = r.run(ctx).await;
+                Ok(())
+            });
+        }
+        {
+            let net = net_ref.clone();
+            let mut listener = listener;
+            s.spawn_bg(async move {
+                while let Ok(tcp) = nv::accept_tcp(ctx, &mut listener).await {
+                    let net = net.clone();
+                    s.spawn_bg(async move {
+                        let _ = net.handle_inbound(ctx, tcp).await;
+                        Ok(())
+                    });
+                }
+                Ok(())
+            });
+        }
+        {
+            let net = net_ref.clone();
+            s.spawn_bg(async move {
+                net.run_block_fetcher(ctx).await;
+                Ok(())
+            });
+        }
+        let key = n_key_ref.clone();
+        s.spawn_bg(async move {
+            let _ = a_net.dial(ctx, &key, addr).await;
+            Ok(())
+        });
+        // the node asks A (announcing 0..=4) for block 0; the answer is held back
+        if !wait_for(60, || a_store_ref.reads().contains(&0)).await {
+            viol_ref.push(("request_lost".into(), format!("[gossip:{PRUNE_SCENARIO}] the only connected peer announced blocks 0..=4 but was not asked for block 0 within 60 s")));
+            return Ok(());
+        }
+        // A prunes everything below 2 and announces 2..=4; give the node time to take note
+        a_store_ref.prune(2);
+        tokio::time::sleep(Duration::from_millis(wait_ms)).await;
+        // A answers the held call: the node stores block 0 and now needs block 1, which A no longer announces
+        a_store_ref.release();
+        if !wait_for(60, || n_store_ref.stored().contains_key(&0)).await {
+            viol_ref.push(("request_lost".into(), format!("[gossip:{PRUNE_SCENARIO}] the peer answered get_block(0) but the node did not store block 0 within 60 s")));
+            return Ok(());
+        }
+        // forbidden: block 1 handed to A (A answers 'not found', the node drops the connection; or A's store sees the read)
+        let dropped = wait_for((wait_ms / 1000).max(1), || !net_ref.inbound_keys().contains(a_key_ref) || a_store_ref.reads().contains(&1)).await;
+        if dropped {
+            *forbidden_ref = Some(format!("[gossip:{PRUNE_SCENARIO}] a peer announced blocks 0..=4, then (having pruned) 2..=4; {wait_ms} ms later the node needed block 1 and handed the request to that peer, whose latest announcement does not contain block 1 (requests seen by the peer's store {:?}; the peer is {} connected)", a_store_ref.reads(), if net_ref.inbound_keys().contains(a_key_ref) { "still" } else { "no longer" }));
+        }
+        // an honest peer with the whole chain connects: everything must arrive
+        let key = n_key_ref.clone();
+        s.spawn_bg(async move {
+            let _ = b_net.dial(ctx, &key, addr).await;
+            Ok(())
+        });
+        let done = wait_for(90, || (0..5u64).all(|n| n_store_ref.stored().contains_key(&n))).await;
+        if !done {
+            viol_ref.push(("request_lost".into(), format!("[gossip:{PRUNE_SCENARIO}] with an honest peer storing the whole chain connected the node still misses blocks 90 s later: stored {:?}, waiting in the fetch queue {:?}", n_store_ref.stored().keys().collect::<Vec<_>>(), net_ref.fetch_requested())));
+        }
+        Ok(())
+    })
+    .await;
+    r.map_err(|e| format!("{e:?}"))?;
+    for (n, b) in n_store.stored() {
+        if canon.get(n as usize) != Some(&b) {
+            viol.push(("foreign_block_stored".into(), format!("[gossip:{PRUNE_SCENARIO}] the node stored a foreign block for number {n}")));
+        }
+    }
+    Ok((viol, forbidden))
+}
+
+/// The forbidden outcome rests on "the node has processed the peer's second announcement", which can
+/// only be awaited by time: it is reported only if it shows up with 0.5 s, 2 s and 8 s of waiting.
+fn run_prune(seed: u64, chn: &c08::Chain, canon: &[validator::Block], rt: &tokio::runtime::Runtime, out: &mut NetOutcome) {
+    out.cases += 1;
+    let mut last = None;
+    for wait_ms in [500u64, 2000, 8000] {
+        match rt.block_on(one_prune(seed, chn, canon, wait_ms)) {
+            Ok((v, forbidden)) => {
+                if !v.is_empty() {
+                    out.viol.extend(v.into_iter().map(|(k, w)| (k, w, PRUNE_SCENARIO.to_string())));
+                    return;
+                }
+                match forbidden {
+                    None => {
+                        out.prune_attempts_clean += 1;
+                        return;
+                    }
+                    Some(f) => last = Some(f),
+                }
+            }
+            Err(e) => {
+                out.machinery.push(format!("gossip scenario {PRUNE_SCENARIO}: {e}"));
+                return;
+            }
+        }
+    }
+    if let Some(f) = last {
+        out.viol.push(("sent_to_peer_without_block".into(), format!("{f} - observed in all three attempts (0.5 s, 2 s, 8 s)"), PRUNE_SCENARIO.to_string()));
+    }
+}
+
+// ---------------------------------------------------------------------------------------------
 // Glue for the checks.
 
 /// Runs the fetch scenarios selected by `filter` (or the one named in a replay file) and reports the
@@ -617,7 +794,7 @@ pub fn report_fetch(rep: &mut crate::core::Report, seed: u64, classes: &[&str], 
         rep.machinery_errors.push("vacuous: no peer of the gossip scenarios ever got to misbehave".into());
     }
     serde_json::json!({
-        "scenarios_run": o.cases, "peer_misbehaviours_delivered": o.lies_told, "get_block_requests_seen_by_peers": o.blocks_fetched,
+        "scenarios_run": o.cases, "prune_scenario_attempts_without_the_forbidden_request": o.prune_attempts_clean, "peer_misbehaviours_delivered": o.lies_told, "get_block_requests_seen_by_peers": o.blocks_fetched,
         "scenarios": fetch_scenarios().iter().filter(|s| filter(s)).map(|s| s.name).collect::<Vec<_>>(),
         "rule": "real gossip networks over loop-back TCP in real time, one run per listed peer behaviour; exhaustive over the list, not over schedules",
     })
